@@ -62,38 +62,35 @@ func c17Use(name string) {
 }
 
 type c17Op struct {
-	Kind string `json:"op"` // put del bput bdel track bwrite breset replaydb replayb2 b2write
-	K    string `json:"-"`
+	Kind string // put del bput bdel track bwrite breset replaydb replayb2 b2write
+	K    string
+	V    string
+}
+
+// c17OpJSON is the artefact form of an operation: keys may hold bytes that are not UTF-8, so they
+// travel in hex (millions of c17Op values are alive during the search: no extra field there).
+type c17OpJSON struct {
+	Kind string `json:"op"`
 	V    string `json:"v,omitempty"`
-	// keys may hold bytes that are not UTF-8: the artefact carries them in hex
 	KHex string `json:"k_hex,omitempty"`
+	OldK string `json:"k,omitempty"`
 }
 
 func (o c17Op) MarshalJSON() ([]byte, error) {
-	type plain c17Op
-	q := plain(o)
-	q.KHex = fmt.Sprintf("%x", o.K)
-	return jsonMarshal(q)
+	return jsonMarshal(c17OpJSON{Kind: o.Kind, V: o.V, KHex: fmt.Sprintf("%x", o.K)})
 }
 
 func (o *c17Op) UnmarshalJSON(b []byte) error {
-	type plain c17Op
-	var q struct {
-		plain
-		OldK string `json:"k"`
-	}
+	var q c17OpJSON
 	if err := jsonUnmarshal(b, &q); err != nil {
 		return err
 	}
-	*o = c17Op(q.plain)
+	o.Kind, o.V, o.K = q.Kind, q.V, q.OldK
 	if q.KHex != "" {
 		var raw []byte
 		fmt.Sscanf(q.KHex, "%x", &raw)
 		o.K = string(raw)
-	} else {
-		o.K = q.OldK
 	}
-	o.KHex = ""
 	return nil
 }
 
@@ -526,6 +523,10 @@ func runC17(c *vx.Ctx) {
 		name  string
 		depth int
 	}{{"lockstep", depth}, {"edge-bytes", depth - 1}, {"edge-bytes-root", depth - 1}}
+	if c.Thorough() {
+		// the edge-byte universes are about the observers (iterator bounds), not about depth
+		unis[1].depth, unis[2].depth = depth-2, depth-2
+	}
 	for _, u := range unis {
 		if !c.Wants(u.name) {
 			continue
